@@ -296,7 +296,8 @@ CaseResult run_v(Tape &t)
           if ((uint64_t) r > n) fail("write-overrun", "write returned more than was offered");
           in_accepted += (uint64_t) r;
         } else if (r == REPROC_EPIPE) {
-          if (!reader_gone && n > 0) fail("write-epipe-with-reader", "write returned the closed-pipe error although the child still has stdin open");
+          // (with the reader gone a zero-size write may or may not notice, K9; with the reader there it must simply return 0)
+          if (!reader_gone) fail("write-epipe-with-reader", "write of " + std::to_string(n) + " byte(s) returned the closed-pipe error although the child still has stdin open");
           in_closed = true;
         } else if (r == REPROC_EWOULDBLOCK) {
           if (!nonblocking) fail("would-block-in-blocking-mode", "a blocking write returned the would-block error");
